@@ -9,7 +9,7 @@ Definition ser_acc (a : option (T FN) * option (T FN)) : tree := Nd [ser_part (f
 
 (* [0; accumulators after each step; per-step parts; applied update]  or  [1; error code] *)
 Definition run_case (c : config FN) (k : nat) (B : nat) (inps : list (list (bool * bool) * signal FN)) : tree :=
-  if cfg_ok FN c k then
+  if hp_ok FN c && cfg_ok FN c k then
     let outs := run FN c k (init_batch FN B) inps in
     Nd [L 0; ser_list ser_acc (accumulate FN (None, None) outs); ser_list ser_acc outs;
         ser_part (acc_update FN (final_acc FN outs))]
